@@ -299,13 +299,19 @@ def pipeline_project(rng, cid, n, cyclic=False, tier="quick", all_edges=None, si
     names = [b"st%d.yaml" % i for i in range(n)]
     outpath = [(b"out/o%d.txt" % i) if kinds[i] == "file" else (b"out/d%d" % i) for i in range(n)]
     nested_used = False
+    split_dirs = {j: (rng.random() < 0.25) for j in range(n) if kinds[j] == "dir"}
     for i in range(n):
         ins = []
         args_in = []
         for (j, k) in edges:
             if k != i:
                 continue
-            if kinds[j] == "dir":
+            if kinds[j] == "dir" and split_dirs.get(j):
+                # the producer declares TWO outputs: the directory itself without recursion and the directory two levels below it
+                ins.append((outpath[j] + b"/sub/deep/h", ""))
+                args_in.append(outpath[j] + b"/sub/deep/h")
+                nested_used = True
+            elif kinds[j] == "dir":
                 how = rng.choice(["dir", "nested", "nested2"])
                 if how == "dir":
                     ins.append((outpath[j], "d"))
@@ -347,6 +353,8 @@ def pipeline_project(rng, cid, n, cyclic=False, tier="quick", all_edges=None, si
         prog = b"vlen" if (lossy and rng.random() < lossy) else b"vcmd"
         cmd = prog + b" S%d " % i + out_arg + b" -- " + b" ".join(args_in)
         st = dict(cmd=cmd.strip(), wd=b".", out=[(outpath[i], "d" if kinds[i] == "dir" else "")])
+        if split_dirs.get(i):
+            st["out"] = [(outpath[i], "dr"), (outpath[i] + b"/sub/deep", "d")]
         if ins:
             st["in"] = ins
         stages.append((names[i], st))
